@@ -60,10 +60,15 @@ fn c06_from_root_is_the_reverse_chain_bounded() {
     assert!(it.next().is_none(), "C06.from_root.nothing_else");
 }
 
+/// `Context::lookup_current` falls back to the real Registry's per-thread span stack when the collector IS a Registry
+/// (thread_local::ThreadLocal: crashes the Kani compiler when reachable). The stub root is not a Registry, so the
+/// fallback is never taken; this stub only removes it from the reachable code.
+fn span_stack_stub(_r: &crate::registry::Registry) -> core::cell::Ref<'_, crate::registry::stack::SpanStack> { unreachable!() }
 // BOUND: span tables of 4 spans
 #[kani::proof]
 #[kani::unwind(7)]
 #[kani::stub(core::fmt::Formatter::pad, pad_stub)]
+#[kani::stub(crate::registry::Registry::span_stack, span_stack_stub)]
 fn c06_event_parent_resolution_bounded() {
     let mut root = any_table();
     root.current = nd(); kani::assume(root.current <= VNSPAN as u64);
